@@ -135,7 +135,7 @@ CHECKS["C17"] = dict(
 CHECKS["C15"] = dict(
     category="exploration",
     technique="exhaustive size and fragmentation enumeration (IX) through the real UDP relay loops over real loopback sockets in lock-step (SEMI)",
-    text="Datagram sizes (quick: boundary sizes 1..3, 253..258, 1471..1473, 8190..8194, 65505..65507 and a stride; thorough: every size 1..=65507) in both directions through the real server-side handler and the real client-side relay loop, position-coded contents, one received datagram per sent one, nothing extra; every 1-cut and 2-cut split and byte-at-a-time delivery of 2- and 3-datagram length-prefixed streams including cuts inside the initial request; end to end through Client::create_udp_proxy, the real sessions and TcpProxyHandler for an IPv4 and an IPv6 target, with a decoy socket that must stay silent. Two local applications alternating on one association; two-piece deliveries with up to 301 (3601) s of silence between the pieces in both directions (clock jump). A datagram from a new local source address arriving between the two pieces of a fragmented reply (4 cut positions). Bursts in both directions, two concurrent associations (replies must return on the association that sent the request), and server-side target shapes IPv4 / IPv4-mapped / ::1 / domain.",
+    text="Datagram sizes (quick: boundary sizes 1..3, 253..258, 1471..1473, 8190..8194, 65505..65507 and a stride; thorough: every size 1..=65507) in both directions through the real server-side handler and the real client-side relay loop, position-coded contents, one received datagram per sent one, nothing extra; every 1-cut and 2-cut split and byte-at-a-time delivery of 2- and 3-datagram length-prefixed streams including cuts inside the initial request; end to end through Client::create_udp_proxy, the real sessions and TcpProxyHandler for an IPv4 and an IPv6 target, with a decoy socket that must stay silent. Two local applications alternating on one association; two-piece deliveries with up to 301 (3601) s of silence between the pieces in both directions (clock jump). A datagram from a new local source address arriving between the two pieces of a fragmented reply (4 cut positions). Server side with the target's port closed for the first datagrams (ICMP port-unreachable, ECONNREFUSED on the relay socket) and listening afterwards: later datagrams arrive exactly once, whole. Bursts in both directions, two concurrent associations (replies must return on the association that sent the request), and server-side target shapes IPv4 / IPv4-mapped / ::1 / domain.",
     note="Trusted: loopback UDP does not lose datagrams in lock-step; hand-built Stream objects carry the tunnel's byte stream in chosen pieces; H7 wrapper exposes the private client loop unchanged.",
     design="DESIGN.md §6 C15",
 )
